@@ -90,8 +90,9 @@ Theorem C14_reopen_same_map : forall q h1 h2 t,
 Proof. exact (sql_reopen_same ns_name). Qed.
 Print Assumptions C14_reopen_same_map.
 
-(* The SQL statements and commit calls of every SqlStorage method, as extracted from the source on
-   this run, are the ones the model implements (LIKE and exact prefix query both count as the prefix query). *)
+(* The statement structure of SqlStorage, as extracted from the source on this run (helper calls followed), is
+   the one the model and C14_failure_atomic rely on: the three writing methods run exactly the modelled
+   statements with the commit last, the reading methods contain nothing but SELECTs. *)
 Theorem C14_sql_statements_as_modelled : sql_shape_ok sql_methods = true.
 Proof. vm_compute. reflexivity. Qed.
 Print Assumptions C14_sql_statements_as_modelled.
